@@ -376,8 +376,31 @@ pub fn profile_mix() -> BoxedStrategy<Profile> {
 
 /// n shapes of one type, n skewed small, sizes deliberately unequal.
 pub fn shapes(ty: Ty, min_n: usize, max_n: usize, nan_zm: bool, max_parts: usize, max_pts: usize) -> BoxedStrategy<Vec<Geom>> {
-    profile_mix()
-        .prop_flat_map(move |p| svec(geom(ty, GenCfg::new(p, nan_zm, max_parts, max_pts)), min_n, max_n))
+    (profile_mix(), 0u8..12, any::<u16>())
+        .prop_flat_map(move |(p, rel, ix)| {
+            svec(geom(ty, GenCfg::new(p, nan_zm, max_parts, max_pts)), min_n, max_n).prop_map(move |mut v| {
+                // relations BETWEEN the shapes of a file: a shape repeated right after itself, all shapes identical,
+                // or the sequence reversed (record-to-record state would show here)
+                if v.len() >= 1 && v.len() < max_n.max(2) {
+                    match rel {
+                        0 => {
+                            let i = pick(ix, v.len());
+                            let d = v[i].clone();
+                            v.insert(i + 1, d);
+                        }
+                        1 => {
+                            let d = v[pick(ix, v.len())].clone();
+                            for s in v.iter_mut() {
+                                *s = d.clone();
+                            }
+                        }
+                        2 => v.reverse(),
+                        _ => {}
+                    }
+                }
+                v
+            })
+        })
         .boxed()
 }
 
